@@ -57,4 +57,11 @@ CLAIMS = {
        "(c20_roundtrip, c20_roundtrip_ext, pdec_penc) for every byte value. Tie to the code: URLs formatted by the harness from random components over all 16 presence subsets, extension spellings, hostile variants, "
        "compared with the model from the same Url::path()/query(); an independent RFC 4516 reader is the oracle (defaults, three error classes, unknown non-critical ignored).",
   note=COMMON_NOTE + "Known finding F19: percent-encoded attribute descriptions are not decoded (public API type prevents a small repair). The url / percent-encoding crates are oracles (model starts from path/query)."),
+ "C02": dict(
+  text="Proved for the model of the eleven request builders, the envelope and the control encoder: an RFC 4511 reader returns exactly the requested operation for bind, SASL EXTERNAL bind, search (all options), "
+       "add, compare, delete, modify (op numbers, value sets), modifyDN, extended, abandon, unbind (c02_bind .. c02_unbind), message id / op / controls with criticality written only when true and value only when "
+       "present (c02_envelope), and for every sequence of calls on one handle the k-th message is the one asked for by the k-th call with its own modifiers only (c02_sequence; F10/F11 repaired). Tie to the code: "
+       "sequences of real operations over the in-memory transport with a replying server, request bytes captured, read by an independent BER reader, SET OF members sorted, compared with the extracted model; an "
+       "independent RFC 4511 request reader compares each request with the call's arguments.",
+  note=COMMON_NOTE + "HashSet iteration order is abstracted (SET OF compared as sorted lists). GSSAPI/NTLM binds are not compiled in. Timeouts do not reach the wire (their effect is C12's)."),
 }
